@@ -48,6 +48,15 @@ def roundtrip(n, res):
     from kfac.distributed import fill_triu, get_triu
 
     i = torch.arange(n)
+    if n <= 1024:
+        # an earlier call in the same process on a WIDE block with the same number of rows (get_triu accepts rows <= cols):
+        # nothing of it may leak into the square round trips below (process-level caches keyed too coarsely)
+        wide = torch.arange(n * (n + 1 + n % 3), dtype=torch.float64).reshape(n, n + 1 + n % 3)
+        tw = get_triu(wide)
+        iw = torch.triu_indices(n, wide.shape[1])
+        res.count('wide_block_calls')
+        if not torch.equal(tw, wide[iw[0], iw[1]]):
+            return res.violation(f'get_triu of a wide {n} x {wide.shape[1]} block is not its upper triangle', dict(n=n, wide_cols=int(wide.shape[1])))
     big = n > 1024   # large factors (thousands of rows): a reduced menu keeps the cost bounded
     for dt in ((torch.float32, torch.bfloat16) if big else (torch.float16, torch.bfloat16, torch.float32, torch.float64)):
         contents = {} if big else {
